@@ -127,6 +127,14 @@ def ev(expr, env):
         return not ev(expr.child, env)
     if isinstance(expr, LogicalAnd):
         return all(ev(c, env) for c in expr.children)
+    from pymbolic.primitives import Comparison, LogicalOr
+    if isinstance(expr, LogicalOr):
+        return any(ev(c, env) for c in expr.children)
+    if isinstance(expr, Comparison):
+        import operator
+        ops = {"<": operator.lt, "<=": operator.le, ">": operator.gt, ">=": operator.ge,
+               "==": operator.eq, "!=": operator.ne}
+        return bool(ops[expr.operator](ev(expr.left, env), ev(expr.right, env)))
     from pymbolic.mapper.evaluator import EvaluationMapper
     try:
         v = EvaluationMapper(env)(expr)
@@ -185,7 +193,13 @@ BOUNDS = ["nb", "mb"]
 
 
 def gen_guard(tape):
-    k = tape.weighted([5, 0.7, 3, 2, 1.5, 0.5, 0.5], "guard")
+    k = tape.weighted([5, 0.7, 3, 2, 1.5, 0.5, 0.5, 1.0], "guard")
+    if k == 7:
+        # comparison guards over real-valued inputs (which may be NaN), plain or negated
+        from pymbolic.primitives import Comparison
+        c = Comparison(Variable(["e0", "e1"][tape.draw(2, "cl")]), ["<", "<=", ">", ">=", "==", "!="][tape.draw(6, "cop")],
+                       Variable(["e1", "e0"][tape.draw(2, "cr")]))
+        return LogicalNot(c) if tape.chance(0.6, "cneg") else c
     if k == 0:
         return True
     if k == 1:
@@ -394,6 +408,8 @@ def run_c05(ctx):
                 env.setdefault(f, bool(tape.draw(2, "fv")))
             env["nb"] = tape.draw(3, "nb")
             env["mb"] = tape.draw(4, "mb")
+            env["e0"] = [0.0, 1.0, float("nan")][tape.draw(3, "e0")]
+            env["e1"] = [1.0, 0.0, float("nan")][tape.draw(3, "e1")]
         trace = []
         execute(base_tree, env, trace, {})
         # L1/L2
@@ -415,7 +431,7 @@ def run_c05(ctx):
                 if h and not w and not isinstance(s, Nop) and not ev(s.condition, env):
                     cls = "leaf-unguarded"
                 raise Violation(cls, "under %r statement %s (%s) ran for iteration vectors %r, declared %r"
-                                % ({k: v for k, v in env.items() if k in flag_names or k in ("nb", "mb")},
+                                % ({k: v for k, v in env.items() if k in flag_names or k in ("nb", "mb", "e0", "e1")},
                                    s.id, s, [dict(x) for x in have], [dict(x) for x in want]),
                                 site=type(s).__name__)
             if want and getattr(s, "loops", None) and s.condition is not True:
